@@ -4,8 +4,8 @@
 //! Stand-ins: `tracing`, `lru`, `vcoll`.
 //! @needs: core mutable signed_announce put_query iterative_query
 use super::*;
-use crate::common::mutable::kani_h as mh;
-use crate::common::signed_announce::kani_h as sh;
+use crate::common::kani_h_mutable as mh;
+use crate::common::kani_h_signed_announce as sh;
 use crate::common::{
     ErrorSpecific, GetPeersRequestArguments, GetValueRequestArguments, PingResponseArguments,
 };
